@@ -107,6 +107,8 @@ pub fn spec_for(prop: &str, tier: &str) -> Option<Spec> {
                 isolate: false,
                 owns_if: None,
                 diff_cfg: None,
+                probe: None,
+                tails: vec![],
             })
         }
         "C03" => {
@@ -187,6 +189,8 @@ pub fn spec_for(prop: &str, tier: &str) -> Option<Spec> {
                 isolate: false,
                 owns_if: None,
                 diff_cfg: None,
+                probe: None,
+                tails: vec![],
             })
         }
         "C15" | "C06" | "C04" | "C16" => {
@@ -213,7 +217,13 @@ pub fn spec_for(prop: &str, tier: &str) -> Option<Spec> {
                         vec![strict_fd(), Config::new(Consistency::Alo(3), Backend::Mmap)]
                     }
                 }
-                "C04" => vec![strict_fd(), Config::new(Consistency::Strict, Backend::Mmap)],
+                "C04" => {
+                    if thorough {
+                        vec![strict_fd(), Config::new(Consistency::Strict, Backend::Mmap)]
+                    } else {
+                        vec![strict_fd()]
+                    }
+                }
                 _ => vec![strict_fd(), Config::new(Consistency::Alo(2), Backend::Fd)],
             };
             let failing = prop != "C06" || true;
@@ -255,6 +265,8 @@ pub fn spec_for(prop: &str, tier: &str) -> Option<Spec> {
                             v.push(Op::AppendLongTopic { name_len: 300, len: 8, batch: false });
                             v.push(Op::AppendLongTopic { name_len: 300, len: 8, batch: true });
                             v.push(Op::Batch { t: 0, lens: vec![1, max_alloc] });
+                            // over the batch byte cap (build-time scaled to 1 MiB)
+                            v.push(Op::BatchN { t: 0, n: 140, len: max_alloc - 300 });
                             v.push(Op::ReadNext { t: 2, ckpt: true });
                         }
                     }
@@ -301,6 +313,235 @@ pub fn spec_for(prop: &str, tier: &str) -> Option<Spec> {
                 } else {
                     None
                 },
+                probe: None,
+                tails: if prop == "C16" {
+                    vec![]
+                } else {
+                    vec![
+                        vec![Op::Drain { t: 0 }, Op::Drain { t: 1 }, Op::Drain { t: 2 }],
+                        vec![Op::Restart, Op::Drain { t: 0 }, Op::Drain { t: 1 }, Op::Drain { t: 2 }],
+                    ]
+                },
+            })
+        }
+        "C02" => {
+            let (half, over, bs) = (s.half, s.over, s.bs);
+            Some(Spec {
+                prop: "C02",
+                cfgs: if thorough {
+                    vec![
+                        strict_fd(),
+                        Config::new(Consistency::Strict, Backend::Mmap),
+                        Config::new(Consistency::Alo(1), Backend::Fd),
+                        Config::new(Consistency::Alo(3), Backend::Mmap),
+                    ]
+                } else {
+                    vec![strict_fd(), Config::new(Consistency::Alo(3), Backend::Mmap)]
+                },
+                roots: vec![
+                    vec![],
+                    vec![Op::Append { t: 0, len: half }, Op::Append { t: 0, len: half }, Op::Append { t: 0, len: 128 }],
+                    vec![
+                        Op::Append { t: 0, len: 1 },
+                        Op::Append { t: 1, len: half },
+                        Op::Append { t: 0, len: 129 },
+                        Op::ReadNext { t: 0, ckpt: true },
+                    ],
+                ],
+                alphabet: Box::new(move |m: &Model, _h: &[Op]| {
+                    let mut v = vec![
+                        Op::Append { t: 0, len: 1 },
+                        Op::Append { t: 0, len: half },
+                        Op::Append { t: 0, len: over },
+                        Op::Batch { t: 0, lens: vec![half, half, 127] },
+                        Op::ReadNext { t: 0, ckpt: true },
+                        Op::BatchRead { t: 0, budget: 257, ckpt: true, start: None },
+                        Op::BatchRead { t: 0, budget: usize::MAX, ckpt: true, start: None },
+                    ];
+                    if thorough {
+                        v.push(Op::Append { t: 0, len: 128 });
+                        v.push(Op::Append { t: 1, len: half });
+                    }
+                    if m.restarts < 1 {
+                        v.push(Op::Restart);
+                    }
+                    v
+                }),
+                max_depth: if thorough { 4 } else { 2 },
+                owned: vec!["peek.changed", "peek.differs", "peek.result", "crash"],
+                dedup: true,
+                time_cap_s: if thorough { 1100.0 } else { 110.0 },
+                extra: None,
+                digest_each: false,
+                want_listing: false,
+                isolate: false,
+                owns_if: None,
+                diff_cfg: None,
+                probe: Some(crate::explore::ProbeSpec {
+                    peeks: Box::new(move |m: &Model| {
+                        let total: u64 = m
+                            .topic_ro(0)
+                            .map(|tm| tm.log.iter().map(|e| 256 + e.ent.len as u64).sum())
+                            .unwrap_or(0);
+                        let mut v = vec![
+                            Op::ReadNext { t: 0, ckpt: false },
+                            Op::ReadNext { t: 1, ckpt: false },
+                            Op::BatchRead { t: 0, budget: 1, ckpt: false, start: None },
+                            Op::BatchRead { t: 0, budget: 257, ckpt: false, start: None },
+                            Op::BatchRead { t: 0, budget: bs, ckpt: false, start: None },
+                            Op::BatchRead { t: 0, budget: usize::MAX, ckpt: false, start: None },
+                        ];
+                        let offs: Vec<u64> = if thorough {
+                            vec![0u64, 1, 256, 257, 300, total.saturating_sub(1), total, total + 1]
+                        } else {
+                            vec![0u64, 257, total.saturating_sub(1), total + 1]
+                        };
+                        for off in offs {
+                            v.push(Op::BatchRead { t: 0, budget: 300, ckpt: true, start: Some(off) });
+                            v.push(Op::BatchRead { t: 0, budget: usize::MAX, ckpt: false, start: Some(off) });
+                        }
+                        v.sort();
+                        v.dedup();
+                        v
+                    }),
+                    suffixes: vec![
+                        vec![Op::Drain { t: 0 }, Op::Drain { t: 1 }],
+                        vec![Op::Restart, Op::Drain { t: 0 }, Op::Drain { t: 1 }],
+                    ],
+                }),
+                tails: vec![],
+            })
+        }
+        "C12" => {
+            let fill = s.fill;
+            let mut c1 = Config::new(Consistency::Strict, Backend::Fd);
+            c1.gate_bg = true;
+            let mut c2 = Config::new(Consistency::Strict, Backend::Mmap);
+            c2.gate_bg = true;
+            let mut c3 = Config::new(Consistency::Alo(2), Backend::Fd);
+            c3.gate_bg = true;
+            let af = |t: u8| Op::Append { t, len: fill };
+            Some(Spec {
+                prop: "C12",
+                cfgs: if thorough { vec![c1, c2, c3] } else { vec![c1] },
+                roots: vec![
+                    // file 1 = blocks a,a,b,a (4 per file), then b,a roll over into file 2
+                    vec![af(0), af(0), af(1), af(0), af(1), af(0)],
+                    // file 1 entirely of topic a, tail in file 2
+                    vec![af(0), af(0), af(0), af(0), af(0)],
+                    // cursor parked at the end of a sealed block, polled without progress
+                    vec![
+                        af(0),
+                        af(0),
+                        af(1),
+                        af(0),
+                        af(1),
+                        af(0),
+                        Op::BatchRead { t: 0, budget: 1, ckpt: true, start: None },
+                        Op::BatchRead { t: 0, budget: usize::MAX, ckpt: false, start: None },
+                        Op::BatchRead { t: 0, budget: usize::MAX, ckpt: false, start: None },
+                    ],
+                ],
+                alphabet: Box::new(move |m: &Model, _h: &[Op]| {
+                    let mut v = vec![
+                        Op::ReadNext { t: 0, ckpt: true },
+                        Op::BatchRead { t: 0, budget: usize::MAX, ckpt: true, start: None },
+                        Op::BatchRead { t: 0, budget: 1, ckpt: true, start: None },
+                        Op::BatchRead { t: 0, budget: usize::MAX, ckpt: false, start: None },
+                        Op::ReadNext { t: 1, ckpt: true },
+                        Op::ReclaimTick,
+                    ];
+                    if thorough {
+                        v.push(Op::Append { t: 0, len: fill });
+                        v.push(Op::ReadNext { t: 0, ckpt: false });
+                        v.push(Op::Drain { t: 0 });
+                    }
+                    if m.restarts < 1 {
+                        v.push(Op::Restart);
+                    }
+                    v
+                }),
+                max_depth: if thorough { 6 } else { 4 },
+                owned: vec!["read.order", "read.empty", "read.err", "read.panic", "reopen.err", "reopen.panic", "crash"],
+                dedup: true,
+                time_cap_s: if thorough { 1100.0 } else { 55.0 },
+                extra: None,
+                digest_each: false,
+                want_listing: false,
+                isolate: true,
+                owns_if: Some(Box::new(|_pre: &Model, ops: &[Op]| ops.iter().any(|o| matches!(o, Op::ReclaimTick)))),
+                diff_cfg: None,
+                probe: None,
+                tails: vec![
+                    vec![Op::ReclaimTick, Op::Drain { t: 0 }, Op::Drain { t: 1 }],
+                    vec![Op::ReclaimTick, Op::Restart, Op::Drain { t: 0 }, Op::Drain { t: 1 }],
+                ],
+            })
+        }
+        "C13" => {
+            let fill = s.fill;
+            let mut c1 = Config::new(Consistency::Strict, Backend::Fd);
+            c1.gate_bg = true;
+            let mut c2 = Config::new(Consistency::Strict, Backend::Mmap);
+            c2.gate_bg = true;
+            let af = |t: u8| Op::Append { t, len: fill };
+            let o = |inst: u8, key: u8, dir: u8| Op::Open { inst, key, dir };
+            let u = |inst: u8| Op::Use { inst };
+            Some(Spec {
+                prop: "C13",
+                cfgs: if thorough { vec![c1, c2] } else { vec![c1] },
+                roots: vec![
+                    // distinct keys under one data dir
+                    vec![o(0, 0, 0), o(1, 1, 0)],
+                    // same key under distinct data dirs
+                    vec![o(0, 0, 0), o(1, 0, 1)],
+                    // both instances own a fully allocated first file
+                    vec![o(0, 0, 0), o(1, 1, 0), u(0), af(0), af(0), af(0), af(0), af(0), u(1), af(0), af(0), af(0), af(0), af(0)],
+                    // three instances, the third with a key that needs sanitising
+                    vec![o(0, 0, 0), o(1, 1, 0), o(2, 2, 0), u(0), af(0), u(2), af(0)],
+                ],
+                alphabet: Box::new(move |m: &Model, _h: &[Op]| {
+                    let mut v = vec![];
+                    for i in 0..3u8 {
+                        if m.sym.open[i as usize].is_some() && i as usize != m.sym.cur {
+                            v.push(Op::Use { inst: i });
+                        }
+                    }
+                    v.extend(vec![
+                        Op::Append { t: 0, len: 1 },
+                        Op::Append { t: 0, len: fill },
+                        Op::ReadNext { t: 0, ckpt: true },
+                        Op::BatchRead { t: 0, budget: usize::MAX, ckpt: true, start: None },
+                        Op::ReclaimTick,
+                    ]);
+                    if thorough {
+                        v.push(Op::MarkClean { t: 0 });
+                        v.push(Op::Append { t: 1, len: fill });
+                    }
+                    if m.restarts < 1 {
+                        v.push(Op::Reopen);
+                    }
+                    v
+                }),
+                max_depth: if thorough { 5 } else { 3 },
+                owned: vec!["read.order", "read.empty", "read.err", "read.panic", "reopen.err", "reopen.panic", "count", "clean", "crash"],
+                dedup: true,
+                time_cap_s: if thorough { 1100.0 } else { 55.0 },
+                extra: None,
+                digest_each: false,
+                want_listing: false,
+                isolate: true,
+                owns_if: None,
+                diff_cfg: None,
+                probe: None,
+                tails: vec![vec![
+                    Op::ReclaimTick,
+                    Op::Restart,
+                    Op::Use { inst: 0 },
+                    Op::Drain { t: 0 },
+                    Op::Use { inst: 1 },
+                    Op::Drain { t: 0 },
+                ]],
             })
         }
         "C17" => {
@@ -337,6 +578,8 @@ pub fn spec_for(prop: &str, tier: &str) -> Option<Spec> {
                 isolate: false,
                 owns_if: None,
                 diff_cfg: None,
+                probe: None,
+                tails: vec![],
             })
         }
         _ => None,
@@ -393,16 +636,24 @@ pub fn run_check(prop: &str, tier: &str) -> i32 {
     let seed: i64 = std::env::var("VERIF_SEED").ok().and_then(|s| s.parse().ok()).unwrap_or(0);
     let kf = Known::load();
     let pool = Pool::new();
-    let Some(spec) = spec_for(prop, tier) else {
-        eprintln!("no sequential spec for {}", prop);
-        return 2;
+    let (out, rule) = if prop == "C14" {
+        (
+            crate::c14::run(&pool, tier),
+            "every key over the 9-symbol alphabet {a - _ . / space NUL e-acute backslash} up to the length bound per constructor (see per_config), plus dot/dot-dot specials and a 300-byte key; one open + one append per key on the real engine; states = keys whose files all landed under data/<one component>/; distinct outcomes = distinct namespace directories created".to_string(),
+        )
+    } else {
+        let Some(spec) = spec_for(prop, tier) else {
+            eprintln!("no sequential spec for {}", prop);
+            return 2;
+        };
+        let out = explore(&pool, &spec, &kf);
+        let rule = format!(
+            "BFS over op sequences (alphabet and roots in DESIGN.md section {}), depth <= {}, one execution of the real engine per transition; a state is distinct when (engine digest, model state) is new; non-trivial = survived the oracle and was not merged",
+            prop, spec.max_depth
+        );
+        (out, rule)
     };
-    let out = explore(&pool, &spec, &kf);
     let wall = t0.elapsed().as_secs_f64();
-    let rule = format!(
-        "BFS over op sequences (alphabet and roots in DESIGN.md section {}), depth <= {}, one execution of the real engine per transition; a state is distinct when (engine digest, model state) is new; non-trivial = survived the oracle and was not merged",
-        prop, spec.max_depth
-    );
     write_evidence(
         prop,
         tier,
